@@ -1,0 +1,23 @@
+//! Verification hooks (feature `verif-hooks`): fault seams for the /verif harness.
+use std::cell::RefCell;
+use std::path::Path;
+
+type RemoveHook = Box<dyn Fn(&Path) -> Option<std::io::Result<()>>>;
+type StageHook = Box<dyn Fn(&str) -> anyhow::Result<()>>;
+thread_local! {
+    static REMOVE_HOOK: RefCell<Option<RemoveHook>> = const { RefCell::new(None) };
+    static STAGE_HOOK: RefCell<Option<StageHook>> = const { RefCell::new(None) };
+}
+pub fn set_remove_hook(h: Option<RemoveHook>) { REMOVE_HOOK.with(|c| *c.borrow_mut() = h); }
+pub fn set_stage_hook(h: Option<StageHook>) { STAGE_HOOK.with(|c| *c.borrow_mut() = h); }
+pub fn stage(name: &str) -> anyhow::Result<()> {
+    STAGE_HOOK.with(|c| match c.borrow().as_ref() { Some(h) => h(name), None => Ok(()) })
+}
+/// Stand-in for `std::fs` inside `commit_staging_dir_impl`.
+pub mod fs {
+    use std::path::Path;
+    pub fn remove_dir_all<P: AsRef<Path>>(p: P) -> std::io::Result<()> {
+        let injected = super::REMOVE_HOOK.with(|c| c.borrow().as_ref().and_then(|h| h(p.as_ref())));
+        match injected { Some(r) => r, None => std::fs::remove_dir_all(p) }
+    }
+}
